@@ -325,6 +325,10 @@ impl Property for C06 {
         for c in &ss.constraints {
             for (id, single) in &singles {
                 let Some(ec) = single.evaluated_constraints.iter().find(|e| e.id == c.id) else { continue };
+                // a value exactly on the threshold: C06's statement does not fix the strictness of the comparison (C05's does)
+                if ec.evaluated_value.abs() == 1e-6 {
+                    continue;
+                }
                 let holds = match ec.equality {
                     1 => ec.evaluated_value.abs() < 1e-6,
                     2 => ec.evaluated_value < 1e-6,
